@@ -8,7 +8,9 @@ Quantifier: every configuration (any number of checks, any placement over the gl
 destination blocks — the same check may be referenced by several blocks —, any verdict of every
 check at every stage and for every recipient, any routing, any targets, any DMARC outcome, the
 message already flagged as quarantined or not when the pipeline gets it — `Cfg.q0`: the pipeline may
-be the target of another pipeline whose checks flagged the message), every
+be the target of another pipeline whose checks flagged the message, any failures of the modifier
+groups — `Cfg.mf`: `RewriteSender` / `RewriteRcpt` for any recipients / `RewriteBody` of the global,
+source and destination-block modifiers failing in the middle of the transaction), every
 envelope (any list of recipients, repeated ones included), both body paths, and every completion
 order of the goroutines of every `runAndMergeResults` call (`Ord.fair`: the oracle only permutes).
 
@@ -137,17 +139,32 @@ theorem mustRefuseRcpt_iff (cfg : Cfg) (r : Rcpt) :
     · exact ⟨_, Or.inr (Or.inl rfl), c, hc, hv⟩
     · exact ⟨_, Or.inr (Or.inr rfl), c, hc, hv⟩
 
-/-- Check `c` is asked about the body of the message: global, source, or in the destination block
-of an accepted recipient. -/
+/-- Check `c` applies to the message: global, source, or in the destination block of an accepted
+recipient.  These are the checks whose verdict on the body the property wants enforced. -/
 def appliesBody (cfg : Cfg) (rcpts : List (Rcpt × Bool)) (c : CheckId) : Prop :=
   c ∈ cfg.global ∨ c ∈ cfg.source ∨ ∃ x ∈ rcpts, x.2 = false ∧ c ∈ (cfg.block (cfg.route x.1)).checks
+
+/-- Check `c` is asked about the body: global, source, or in the destination block of a recipient
+that was handled in the block's scope - it passed every check and the global / source modifiers
+(`ReachesBlock`); every accepted recipient is one, and so is a recipient for which only the block's
+own `RewriteRcpt` failed.  This is exactly the key set of `rcptModifiersState`. -/
+def inBodyScope (cfg : Cfg) (rcpts : List (Rcpt × Bool)) (c : CheckId) : Prop :=
+  c ∈ cfg.global ∨ c ∈ cfg.source ∨ ∃ x ∈ rcpts, ReachesBlock cfg x.1 ∧ c ∈ (cfg.block (cfg.route x.1)).checks
+
+/-- Some `RewriteBody` fails: of the global or source modifiers, or of the modifiers of a
+destination block that takes part in the body stage. -/
+def BodyModFails (cfg : Cfg) (rcpts : List (Rcpt × Bool)) : Prop :=
+  cfg.mf.bodyG = true ∨ cfg.mf.bodyS = true ∨
+    ∃ x ∈ rcpts, ReachesBlock cfg x.1 ∧ cfg.mf.bodyB (cfg.route x.1) = true
 
 theorem body_frame (cfg : Cfg) (d : Dlv) :
     (bodySMTP idOrd cfg d).1.deliveries = d.deliveries ∧ (bodySMTP idOrd cfg d).1.used = d.used := by
   rw [bodySMTP_eq]
   split
   · simp
-  · split <;> simp [applyResults_frame]
+  · split
+    · simp [applyResults_frame]
+    · split <;> simp [applyResults_frame]
 
 /-! ### the transaction, projection by projection -/
 
@@ -205,44 +222,42 @@ theorem run_final_deliveries (cfg : Cfg) (m : Mode) (rs : List Rcpt) :
 theorem atData (cfg : Cfg) (hok : (start idOrd cfg).2 = false) (rs : List Rcpt) :
     RInv cfg.v (rcptPhase cfg rs).1.cr ∧ QInv cfg.v (rcptPhase cfg rs).1.cr ∧
     (∀ c, c ∈ cfg.global ∨ c ∈ cfg.source → c ∈ (rcptPhase cfg rs).1.cr.states) ∧
-    (∀ b, b ∈ (rcptPhase cfg rs).1.used ↔ ∃ x ∈ (rcptPhase cfg rs).2, x.2 = false ∧ cfg.route x.1 = b) ∧
-    (∀ c, appliesBody cfg (rcptPhase cfg rs).2 c → c ∈ (rcptPhase cfg rs).1.cr.states) ∧
+    (∀ b, b ∈ (rcptPhase cfg rs).1.used ↔ ∃ x ∈ (rcptPhase cfg rs).2, ReachesBlock cfg x.1 ∧ cfg.route x.1 = b) ∧
+    (∀ c, inBodyScope cfg (rcptPhase cfg rs).2 c → c ∈ (rcptPhase cfg rs).1.cr.states) ∧
     (rcptPhase cfg rs).1.metaQ = cfg.q0 := by
   have hs := start_frame idOrd cfg
   have ch0 := start_ok cfg hok
   have e := addAll_ext cfg rs (start idOrd cfg).1
-  have hu := addAll_used idOrd cfg rs (start idOrd cfg).1
+  have hu := addAll_used cfg rs (start idOrd cfg).1 ch0.1
   have hgs : ∀ c, c ∈ cfg.global ∨ c ∈ cfg.source → c ∈ (rcptPhase cfg rs).1.cr.states :=
     fun c hc => (e.st c (ch0.2.2 c hc)).1
-  have hused : ∀ b, b ∈ (rcptPhase cfg rs).1.used ↔ ∃ x ∈ (rcptPhase cfg rs).2, x.2 = false ∧ cfg.route x.1 = b := by
+  have hused : ∀ b, b ∈ (rcptPhase cfg rs).1.used ↔
+      ∃ x ∈ (rcptPhase cfg rs).2, ReachesBlock cfg x.1 ∧ cfg.route x.1 = b := by
     intro b
     have := hu b
     rw [hs.1] at this
     simpa [rcptPhase] using this
-  refine ⟨?_, ?_, hgs, hused, ?_, ?_⟩
-  · have : ∀ (rs : List Rcpt) (d : Dlv), RInv cfg.v d.cr → RInv cfg.v (addAll idOrd cfg d rs).1.cr := by
-      intro rs
-      induction rs with
-      | nil => intro d h; simpa [addAll] using h
-      | cons r rest ih => intro d h; simp only [addAll]; exact ih _ ((addRcpt_chain cfg d r).rinv h)
-    exact this rs _ ch0.1
-  · have : ∀ (rs : List Rcpt) (d : Dlv), QInv cfg.v d.cr → QInv cfg.v (addAll idOrd cfg d rs).1.cr := by
-      intro rs
-      induction rs with
-      | nil => intro d h; simpa [addAll] using h
-      | cons r rest ih => intro d h; simp only [addAll]; exact ih _ ((addRcpt_chain cfg d r).qinv h)
-    exact this rs _ ch0.2.1
-  · rintro c (hc | hc | ⟨x, hx, hxa, hc⟩)
+  refine ⟨addAll_rinv cfg rs _ ch0.1, addAll_qinv cfg rs _ ch0.2.1, hgs, hused, ?_, ?_⟩
+  · rintro c (hc | hc | ⟨x, hx, hre, hc⟩)
     · exact hgs c (Or.inl hc)
     · exact hgs c (Or.inr hc)
-    · exact (addAll_accepted cfg rs _ x hx hxa _ (by simp [appGroups]) c hc).1
+    · exact (addAll_reached cfg rs _ ch0.1 x hx hre _ (by simp [appGroups]) c hc).1
   · show (addAll idOrd cfg (start idOrd cfg).1 rs).1.metaQ = cfg.q0
     rw [addAll_metaQ, hs.2.2]
 
+/-- An accepted recipient was handled in its block's scope, so a check that applies to the message
+is asked about the body. -/
+theorem appliesBody_inScope (cfg : Cfg) (hok : (start idOrd cfg).2 = false) (rs : List Rcpt) (c : CheckId)
+    (h : appliesBody cfg (rcptPhase cfg rs).2 c) : inBodyScope cfg (rcptPhase cfg rs).2 c := by
+  rcases h with h | h | ⟨x, hx, hxa, hc⟩
+  · exact Or.inl h
+  · exact Or.inr (Or.inl h)
+  · exact Or.inr (Or.inr ⟨x, hx, addAll_accepted_reaches cfg rs _ (start_ok cfg hok).1 x hx hxa, hc⟩)
+
 theorem mem_bodyGroups (cfg : Cfg) (hok : (start idOrd cfg).2 = false) (rs : List Rcpt) (c : CheckId) :
-    (∃ g ∈ bodyGroups cfg (rcptPhase cfg rs).1, c ∈ g) ↔ appliesBody cfg (rcptPhase cfg rs).2 c := by
+    (∃ g ∈ bodyGroups cfg (rcptPhase cfg rs).1, c ∈ g) ↔ inBodyScope cfg (rcptPhase cfg rs).2 c := by
   have ad := atData cfg hok rs
-  simp only [bodyGroups, List.mem_cons, List.mem_map, appliesBody]
+  simp only [bodyGroups, List.mem_cons, List.mem_map, inBodyScope]
   constructor
   · rintro ⟨g, hg, hc⟩
     rcases hg with rfl | rfl | ⟨b, hb, rfl⟩
@@ -255,10 +270,10 @@ theorem mem_bodyGroups (cfg : Cfg) (hok : (start idOrd cfg).2 = false) (rs : Lis
     · exact ⟨_, Or.inr (Or.inl rfl), hc⟩
     · exact ⟨_, Or.inr (Or.inr ⟨cfg.route x.1, (ad.2.2.2.1 _).mpr ⟨x, hx, hxa, rfl⟩, rfl⟩), hc⟩
 
-/-- The body check phase refuses exactly when a check that applies to the message rejects the body. -/
+/-- The body check phase refuses exactly when a check that is asked about the body rejects it. -/
 theorem bodyChecks_refused_iff (cfg : Cfg) (hok : (start idOrd cfg).2 = false) (rs : List Rcpt) :
     (bodyChecks cfg (rcptPhase cfg rs).1).2 = true ↔
-      ∃ c, appliesBody cfg (rcptPhase cfg rs).2 c ∧ cfg.v c .body = .rej := by
+      ∃ c, inBodyScope cfg (rcptPhase cfg rs).2 c ∧ cfg.v c .body = .rej := by
   have ad := atData cfg hok rs
   have ch := bodyChecks_chain cfg (rcptPhase cfg rs).1
   constructor
@@ -273,13 +288,31 @@ theorem bodyChecks_refused_iff (cfg : Cfg) (hok : (start idOrd cfg).2 = false) (
     obtain ⟨g, hg, hcg⟩ := (mem_bodyGroups cfg hok rs c).mpr hc
     exact ch.refused_of_reject ⟨g, hg, c, hcg, hv⟩
 
+/-- The `RewriteBody` phase fails exactly when `BodyModFails`. -/
+theorem modBodyFails_iff (cfg : Cfg) (hok : (start idOrd cfg).2 = false) (rs : List Rcpt) :
+    modBodyFails cfg (rcptPhase cfg rs).1 = true ↔ BodyModFails cfg (rcptPhase cfg rs).2 := by
+  have ad := atData cfg hok rs
+  simp only [modBodyFails, BodyModFails, Bool.or_eq_true, List.any_eq_true, or_assoc]
+  constructor
+  · rintro (h | h | ⟨b, hb, hf⟩)
+    · exact Or.inl h
+    · exact Or.inr (Or.inl h)
+    · obtain ⟨x, hx, hre, rfl⟩ := (ad.2.2.2.1 b).mp hb
+      exact Or.inr (Or.inr ⟨x, hx, hre, hf⟩)
+  · rintro (h | h | ⟨x, hx, hre, hf⟩)
+    · exact Or.inl h
+    · exact Or.inr (Or.inl h)
+    · exact Or.inr (Or.inr ⟨_, (ad.2.2.2.1 _).mpr ⟨x, hx, hre, rfl⟩, hf⟩)
+
 /-! ### the theorems -/
 
-/-- MAIL is refused exactly when a global or source check rejects the connection or the sender;
-then the transaction is over: no RCPT, no DATA, no target involved. -/
+/-- MAIL is refused exactly when a global or source check rejects the connection or the sender (or
+the `RewriteSender` of the global / source modifiers fails); then the transaction is over: no RCPT,
+no DATA, no target involved. -/
 theorem C06_mail_refused_iff (o : Ord) (ho : o.fair) (cfg : Cfg) (m : Mode) (rs : List Rcpt) :
     ((run o cfg m rs).startRefused = true ↔
-      ∃ c, (c ∈ cfg.global ∨ c ∈ cfg.source) ∧ (cfg.v c .conn = .rej ∨ cfg.v c .sender = .rej)) ∧
+      (∃ c, (c ∈ cfg.global ∨ c ∈ cfg.source) ∧ (cfg.v c .conn = .rej ∨ cfg.v c .sender = .rej)) ∨
+      cfg.mf.senderG = true ∨ cfg.mf.senderS = true) ∧
     ((run o cfg m rs).startRefused = true →
       (run o cfg m rs).rcpts = [] ∧ (run o cfg m rs).body = none ∧ (run o cfg m rs).final.deliveries = []) := by
   rw [run_ord o ho, run_startRefused, run_rcpts, run_body, run_final_deliveries]
@@ -287,17 +320,19 @@ theorem C06_mail_refused_iff (o : Ord) (ho : o.fair) (cfg : Cfg) (m : Mode) (rs 
   intro h; simp [h]
 
 /-- Every RCPT command is refused exactly when a check applying to its recipient rejects the
-recipient, the connection or the sender. -/
+recipient, the connection or the sender - or the `RewriteRcpt` of a modifier group fails for it. -/
 theorem C06_rcpt_refused_iff (o : Ord) (ho : o.fair) (cfg : Cfg) (m : Mode) (rs : List Rcpt) :
     ∀ x ∈ (run o cfg m rs).rcpts, x.2 = true ↔
-      ∃ c, applies cfg x.1 c ∧ (cfg.v c (.rcpt x.1) = .rej ∨ cfg.v c .conn = .rej ∨ cfg.v c .sender = .rej) := by
+      (∃ c, applies cfg x.1 c ∧ (cfg.v c (.rcpt x.1) = .rej ∨ cfg.v c .conn = .rej ∨ cfg.v c .sender = .rej)) ∨
+      cfg.mf.rcptAny x.1 = true := by
   rw [run_ord o ho, run_rcpts]
   intro x hx
   by_cases hs : (start idOrd cfg).2 = true
   · simp [hs] at hx
   · have hs' : (start idOrd cfg).2 = false := by simpa using hs
     simp only [hs, Bool.false_eq_true, ↓reduceIte] at hx
-    exact (addAll_refused_iff cfg rs _ (start_ok cfg hs').1 x hx).trans (mustRefuseRcpt_iff cfg x.1)
+    rw [← mustRefuseRcpt_iff]
+    exact addAll_refused_iff cfg rs _ (start_ok cfg hs').1 x hx
 
 /-- A recipient is handed to a target only by an accepted RCPT command for it: a refused
 recipient reaches nobody. -/
@@ -313,14 +348,46 @@ theorem C06_refused_recipient_reaches_no_target (o : Ord) (ho : o.fair) (cfg : C
     · exact h
     · rw [(start_frame idOrd cfg).2.1] at ht0; cases ht0
 
-/-- DATA is refused by the checks exactly when a check applying to the message rejects the body;
-by DMARC exactly when the checks pass and the policy outcome is reject; in both cases before any
-target sees the body: nobody is served, nothing is handed over. -/
+theorem why_chain (b1 b2 b3 : Bool) :
+    ((if b1 then some Why.check else if b2 then some Why.dmarc else if b3 then some Why.modifier else none)
+        = some Why.check ↔ b1 = true) ∧
+    ((if b1 then some Why.check else if b2 then some Why.dmarc else if b3 then some Why.modifier else none)
+        = some Why.dmarc ↔ ¬ b1 = true ∧ b2 = true) ∧
+    ((if b1 then some Why.check else if b2 then some Why.dmarc else if b3 then some Why.modifier else none)
+        = some Why.modifier ↔ ¬ b1 = true ∧ ¬ b2 = true ∧ b3 = true) ∧
+    ((if b1 then some Why.check else if b2 then some Why.dmarc else if b3 then some Why.modifier else none)
+        = none ↔ b1 = false ∧ b2 = false ∧ b3 = false) := by
+  cases b1 <;> cases b2 <;> cases b3 <;> simp
+
+/-- The reply to DATA in terms of the three phases: checks, `applyResults`, `RewriteBody`. -/
+theorem body_refused_eq (cfg : Cfg) (d : Dlv) :
+    (bodySMTP idOrd cfg d).2.refused =
+      (if (bodyChecks cfg d).2 then some Why.check
+       else if (applyResults cfg { d with cr := (bodyChecks cfg d).1 }).2 then some Why.dmarc
+       else if modBodyFails cfg d then some Why.modifier else none) ∧
+    ((bodySMTP idOrd cfg d).2.refused.isSome = true → (bodySMTP idOrd cfg d).2.results = []) := by
+  have hm : modBodyFails cfg (applyResults cfg { d with cr := (bodyChecks cfg d).1 }).1 = modBodyFails cfg d := by
+    rw [modBodyFails_applyResults]; rfl
+  rw [bodySMTP_eq, hm]
+  split
+  · simp
+  · split
+    · simp
+    · split <;> simp
+
+/-- DATA is refused by the checks exactly when a check that is asked about the body rejects it (the
+checks of the global block, of the source block and of the destination block of every recipient
+handled in that block's scope); by DMARC exactly when the checks pass and the policy outcome is
+reject; by a modifier exactly when checks and DMARC pass and a `RewriteBody` fails; in all cases
+before any target sees the body: nobody is served, nothing is handed over. -/
 theorem C06_data_refused_iff (o : Ord) (ho : o.fair) (cfg : Cfg) (m : Mode) (rs : List Rcpt) :
     ∀ b, (run o cfg m rs).body = some b →
-      (b.refused = some .check ↔ ∃ c, appliesBody cfg (run o cfg m rs).rcpts c ∧ cfg.v c .body = .rej) ∧
+      (b.refused = some .check ↔ ∃ c, inBodyScope cfg (run o cfg m rs).rcpts c ∧ cfg.v c .body = .rej) ∧
       (b.refused = some .dmarc ↔
-        (¬ ∃ c, appliesBody cfg (run o cfg m rs).rcpts c ∧ cfg.v c .body = .rej) ∧ cfg.dmarc = .rej) ∧
+        (¬ ∃ c, inBodyScope cfg (run o cfg m rs).rcpts c ∧ cfg.v c .body = .rej) ∧ cfg.dmarc = .rej) ∧
+      (b.refused = some .modifier ↔
+        (¬ ∃ c, inBodyScope cfg (run o cfg m rs).rcpts c ∧ cfg.v c .body = .rej) ∧ ¬ cfg.dmarc = .rej ∧
+          BodyModFails cfg (run o cfg m rs).rcpts) ∧
       (b.refused.isSome = true →
         b.results = [] ∧ delivered m (run o cfg m rs) = [] ∧ handedOver m (run o cfg m rs) = []) := by
   rw [run_ord o ho]
@@ -335,36 +402,42 @@ theorem C06_data_refused_iff (o : Ord) (ho : o.fair) (cfg : Cfg) (m : Mode) (rs 
     · cases hb
     · simp only [Option.some.injEq] at hb
       have hbc := bodyChecks_refused_iff cfg hs' rs
+      have hmf := modBodyFails_iff cfg hs' rs
+      have ar := (applyResults_spec cfg { (rcptPhase cfg rs).1 with cr := (bodyChecks cfg (rcptPhase cfg rs).1).1 }).1
+      have br := body_refused_eq cfg (rcptPhase cfg rs).1
+      rw [hb] at br
+      have k := why_chain (bodyChecks cfg (rcptPhase cfg rs).1).2
+        (applyResults cfg { (rcptPhase cfg rs).1 with cr := (bodyChecks cfg (rcptPhase cfg rs).1).1 }).2
+        (modBodyFails cfg (rcptPhase cfg rs).1)
       rw [run_rcpts]
       simp only [hs, Bool.false_eq_true, ↓reduceIte]
       have tail : b.refused.isSome = true →
           b.results = [] ∧ delivered m (run idOrd cfg m rs) = [] ∧ handedOver m (run idOrd cfg m rs) = [] := by
         intro hr
-        have hres : b.results = [] := by
-          rw [← hb, bodySMTP_eq] at hr ⊢
-          split
-          · rfl
-          · split
-            · rfl
-            · rename_i h1 h2; simp [h1, h2] at hr
+        have hres : b.results = [] := br.2 hr
         refine ⟨hres, ?_, ?_⟩
         · simp [delivered, hb0, hr]
         · cases m <;> simp [handedOver, hb0, hres]
-      refine ⟨?_, ?_, tail⟩
-      · rw [← hbc, ← hb, bodySMTP_eq]
-        split
-        · rename_i h; simp [h]
-        · rename_i h; split <;> simp [h]
-      · rw [← hbc, ← hb, bodySMTP_eq]
-        have ar := (applyResults_spec cfg { (rcptPhase cfg rs).1 with cr := (bodyChecks cfg (rcptPhase cfg rs).1).1 }).1
-        split
-        · rename_i h; simp [h]
-        · rename_i h
-          split
-          · rename_i h2; simp [h, ar.mp h2]
-          · rename_i h2
-            have : cfg.dmarc ≠ .rej := fun hd => h2 (ar.mpr hd)
-            simp [this]
+      refine ⟨?_, ?_, ?_, tail⟩
+      · rw [br.1, k.1, hbc]
+      · rw [br.1, k.2.1, hbc, ar]
+      · rw [br.1, k.2.2.1, hbc, ar, hmf]
+
+/-- A check that applies to the message (global, source, or in the destination block of an ACCEPTED
+recipient) is asked about the body - whatever happened to other recipients of the same block after
+that recipient was accepted (a later one failing in the block's `RewriteRcpt` in particular). -/
+theorem C06_applies_in_scope (o : Ord) (ho : o.fair) (cfg : Cfg) (m : Mode) (rs : List Rcpt) (c : CheckId)
+    (h : appliesBody cfg (run o cfg m rs).rcpts c) : inBodyScope cfg (run o cfg m rs).rcpts c := by
+  rw [run_ord o ho, run_rcpts] at h ⊢
+  by_cases hs : (start idOrd cfg).2 = true
+  · simp only [hs, ↓reduceIte] at h ⊢
+    rcases h with h | h | ⟨x, hx, _⟩
+    · exact Or.inl h
+    · exact Or.inr (Or.inl h)
+    · cases hx
+  · have hs' : (start idOrd cfg).2 = false := by simpa using hs
+    simp only [hs, Bool.false_eq_true, ↓reduceIte] at h ⊢
+    exact appliesBody_inScope cfg hs' rs c h
 
 /-- **A reject refuses and nothing is delivered.** For every transaction, whatever the completion
 order: a reject by a global or source check at the connection or sender stage refuses MAIL (and
@@ -389,8 +462,8 @@ theorem C06_reject_refuses_and_delivers_nothing (o : Ord) (ho : o.fair) (cfg : C
   refine ⟨?_, ?_, ?_, ?_⟩
   · intro h
     have := C06_mail_refused_iff o ho cfg m rs
-    exact ⟨this.1.mpr h, this.2 (this.1.mpr h)⟩
-  · intro x hx h; exact (C06_rcpt_refused_iff o ho cfg m rs x hx).mpr h
+    exact ⟨this.1.mpr (Or.inl h), this.2 (this.1.mpr (Or.inl h))⟩
+  · intro x hx h; exact (C06_rcpt_refused_iff o ho cfg m rs x hx).mpr (Or.inl h)
   · intro y hy t ht hm
     obtain ⟨x, hx, rfl, hxa⟩ := C06_refused_recipient_reaches_no_target o ho cfg m rs t ht y hm
     have := hy x hx rfl
@@ -398,21 +471,27 @@ theorem C06_reject_refuses_and_delivers_nothing (o : Ord) (ho : o.fair) (cfg : C
   · intro b hb h
     have d := C06_data_refused_iff o ho cfg m rs b hb
     have hsome : b.refused.isSome = true := by
-      by_cases hc : ∃ c, appliesBody cfg (run o cfg m rs).rcpts c ∧ cfg.v c .body = .rej
+      by_cases hc : ∃ c, inBodyScope cfg (run o cfg m rs).rcpts c ∧ cfg.v c .body = .rej
       · rw [d.1.mpr hc]; rfl
-      · rcases h with h | h
-        · exact absurd h hc
+      · rcases h with ⟨c, hap, hv⟩ | h
+        · exact absurd ⟨c, C06_applies_in_scope o ho cfg m rs c hap, hv⟩ hc
         · rw [d.2.1.mpr ⟨hc, h⟩]; rfl
-    exact ⟨hsome, d.2.2 hsome⟩
+    exact ⟨hsome, d.2.2.2 hsome⟩
 
-/-- **Nothing is refused without a reject**: the converse of the enforcement, all three stages. -/
+/-- **Nothing is refused without a cause**: the converse of the enforcement, all three stages. A
+command is refused only because a check in whose scope its subject was handled rejects it, because
+the DMARC policy rejects, or because a modifier group failed (an error of the modifier's own, handed
+back unchanged); without modifier failures: only by a reject. -/
 theorem C06_refusals_are_justified (o : Ord) (ho : o.fair) (cfg : Cfg) (m : Mode) (rs : List Rcpt) :
     ((run o cfg m rs).startRefused = true →
-      ∃ c, (c ∈ cfg.global ∨ c ∈ cfg.source) ∧ (cfg.v c .conn = .rej ∨ cfg.v c .sender = .rej)) ∧
+      (∃ c, (c ∈ cfg.global ∨ c ∈ cfg.source) ∧ (cfg.v c .conn = .rej ∨ cfg.v c .sender = .rej)) ∨
+      cfg.mf.senderG = true ∨ cfg.mf.senderS = true) ∧
     (∀ x ∈ (run o cfg m rs).rcpts, x.2 = true →
-      ∃ c, applies cfg x.1 c ∧ (cfg.v c (.rcpt x.1) = .rej ∨ cfg.v c .conn = .rej ∨ cfg.v c .sender = .rej)) ∧
+      (∃ c, applies cfg x.1 c ∧ (cfg.v c (.rcpt x.1) = .rej ∨ cfg.v c .conn = .rej ∨ cfg.v c .sender = .rej)) ∨
+      cfg.mf.rcptAny x.1 = true) ∧
     (∀ b, (run o cfg m rs).body = some b → b.refused.isSome = true →
-      (∃ c, appliesBody cfg (run o cfg m rs).rcpts c ∧ cfg.v c .body = .rej) ∨ cfg.dmarc = .rej) := by
+      (∃ c, inBodyScope cfg (run o cfg m rs).rcpts c ∧ cfg.v c .body = .rej) ∨ cfg.dmarc = .rej ∨
+      BodyModFails cfg (run o cfg m rs).rcpts) := by
   refine ⟨(C06_mail_refused_iff o ho cfg m rs).1.mp, fun x hx => (C06_rcpt_refused_iff o ho cfg m rs x hx).mp, ?_⟩
   intro b hb hr
   have d := C06_data_refused_iff o ho cfg m rs b hb
@@ -421,7 +500,8 @@ theorem C06_refusals_are_justified (o : Ord) (ho : o.fair) (cfg : Cfg) (m : Mode
   | some w =>
     cases w
     · exact Or.inl (d.1.mp hw)
-    · exact Or.inr (d.2.1.mp hw).2
+    · exact Or.inr (Or.inl (d.2.1.mp hw).2)
+    · exact Or.inr (Or.inr (d.2.2.1.mp hw).2.2)
 
 /-! ## a quarantine flags every target -/
 
@@ -431,7 +511,7 @@ def QuarVerdict (cfg : Cfg) (rcpts : List (Rcpt × Bool)) : Prop :=
   (∃ c, appliesBody cfg rcpts c ∧ (cfg.v c .conn = .quar ∨ cfg.v c .sender = .quar ∨ cfg.v c .body = .quar)) ∨
   (∃ x ∈ rcpts, x.2 = false ∧ ∃ c, applies cfg x.1 c ∧ cfg.v c (.rcpt x.1) = .quar)
 
-/-- What DATA looks like when it gets past the checks and DMARC. -/
+/-- What DATA looks like when it gets past the checks, DMARC and the modifiers. -/
 theorem data_passed (cfg : Cfg) (d : Dlv) (h : (bodySMTP idOrd cfg d).2.refused = none) :
     (bodyChecks cfg d).2 = false ∧ cfg.dmarc ≠ .rej ∧
     (bodySMTP idOrd cfg d).1.metaQ = (d.metaQ || (bodyChecks cfg d).1.mergedQ || (cfg.dmarc == .quar)) ∧
@@ -444,11 +524,13 @@ theorem data_passed (cfg : Cfg) (d : Dlv) (h : (bodySMTP idOrd cfg d).2.refused 
   · simp [h1] at h
   · by_cases h2 : (applyResults cfg { d with cr := (bodyChecks cfg d).1 }).2 = true
     · simp [h1, h2] at h
-    · have h1' : (bodyChecks cfg d).2 = false := by simpa using h1
-      refine ⟨h1', fun hd => h2 (ar.1.mpr hd), ?_, ?_, ?_⟩
-      · simp only [h1, h2, Bool.false_eq_true, ↓reduceIte]; rw [ar.2]
-      · simp only [h1, h2, Bool.false_eq_true, ↓reduceIte]; exact af.2.2
-      · simp only [h1, h2, Bool.false_eq_true, ↓reduceIte]
+    · by_cases h3 : modBodyFails cfg (applyResults cfg { d with cr := (bodyChecks cfg d).1 }).1 = true
+      · simp [h1, h2, h3] at h
+      · have h1' : (bodyChecks cfg d).2 = false := by simpa using h1
+        refine ⟨h1', fun hd => h2 (ar.1.mpr hd), ?_, ?_, ?_⟩
+        · simp only [h1, h2, h3, Bool.false_eq_true, ↓reduceIte]; rw [ar.2]
+        · simp only [h1, h2, h3, Bool.false_eq_true, ↓reduceIte]; exact af.2.2
+        · simp only [h1, h2, h3, Bool.false_eq_true, ↓reduceIte]
 
 /-- **A quarantine flags every target.** If a check applying to the delivered message — or the
 DMARC policy — quarantines, or the message was already flagged when this pipeline got it (by a
@@ -489,7 +571,8 @@ theorem C06_quarantine_flags_every_target (o : Ord) (ho : o.fair) (cfg : Cfg) (m
         rcases hq with hq | hq
         · have : (bodyChecks cfg (rcptPhase cfg rs).1).1.mergedQ = true := by
             rcases hq with ⟨c, hc, hv⟩ | ⟨x, hx, hxa, c, hc, hv⟩
-            · rcases hv with hv | hv | hv
+            · have hc := appliesBody_inScope cfg hs' rs c hc
+              rcases hv with hv | hv | hv
               · exact ch.q_mono (ad.2.1 c (ad.2.2.2.2.1 c hc) (Or.inl hv))
               · exact ch.q_mono (ad.2.1 c (ad.2.2.2.2.1 c hc) (Or.inr hv))
               · obtain ⟨g, hg, hcg⟩ := (mem_bodyGroups cfg hs' rs c).mpr hc
@@ -501,7 +584,7 @@ theorem C06_quarantine_flags_every_target (o : Ord) (ho : o.fair) (cfg : Cfg) (m
                 · exact ⟨_, Or.inr (Or.inl rfl), hc⟩
                 · exact ⟨_, Or.inr (Or.inr rfl), hc⟩
               obtain ⟨g, hg, hcg⟩ := hg
-              exact ch.q_mono ((addAll_accepted cfg rs _ x hx hxa g hg c hcg).2.2 hv)
+              exact ch.q_mono ((addAll_accepted cfg rs _ (start_ok cfg hs').1 x hx hxa g hg c hcg).2.2 hv)
           simp [this]
         · rcases hq with hq | hq
           · simp [hq]
@@ -566,14 +649,17 @@ theorem C06_quarantine_only_by_verdict (o : Ord) (ho : o.fair) (cfg : Cfg) (m : 
       have ar := applyResults_spec cfg { (rcptPhase cfg rs).1 with cr := (bodyChecks cfg (rcptPhase cfg rs).1).1 }
       split at h
       · simp only at h; rw [am] at h; cases h
-      · split at h
-        all_goals
-          simp only at h
+      · have fin : (applyResults cfg { (rcptPhase cfg rs).1 with cr := (bodyChecks cfg (rcptPhase cfg rs).1).1 }).1.metaQ = true →
+            cfg.dmarc = .quar ∨ ∃ c s, cfg.v c s = .quar := by
+          intro h
           rw [ar.2] at h
           simp only [am, Bool.false_or, Bool.or_eq_true, beq_iff_eq] at h
           rcases h with h | h
           · exact Or.inr (src h)
           · exact Or.inl h
+        split at h
+        · exact fin h
+        · split at h <;> exact fin h
 
 /-! ## the flag is monotone: a flagged message stays flagged through any pipeline -/
 
@@ -590,7 +676,9 @@ theorem bodySMTP_metaQ_mono (o : Ord) (cfg : Cfg) (d : Dlv) (h : d.metaQ = true)
     · exact h
     · split
       · exact h
-      · split <;> exact applyResults_mono cfg _ h
+      · split
+        · exact applyResults_mono cfg _ h
+        · split <;> exact applyResults_mono cfg _ h
 
 /-- **The quarantine flag is monotone.** A message that is flagged when a pipeline gets it — the
 pipeline is the target of another pipeline (`deliver_to &inner`, `reroute`) whose check or DMARC
@@ -637,12 +725,14 @@ theorem C06_quarantine_flag_monotone (o : Ord) (cfg : Cfg) (m : Mode) (rs : List
               · cases hx
               · split at hx
                 · cases hx
-                · simp only [deliverAll, List.mem_map] at hx
-                  obtain ⟨y, _, rfl⟩ := hx
-                  have hm := applyResults_mono cfg
-                    { d with cr := (checkBodyBlocks o cfg (checkBody o cfg.v (checkBody o cfg.v d.cr cfg.global).1 cfg.source).1 d.used).1 } hd
-                  simp only [targetAccepts]
-                  rw [hm]; simp
+                · split at hx
+                  · cases hx
+                  · simp only [deliverAll, List.mem_map] at hx
+                    obtain ⟨y, _, rfl⟩ := hx
+                    have hm := applyResults_mono cfg
+                      { d with cr := (checkBodyBlocks o cfg (checkBody o cfg.v (checkBody o cfg.v d.cr cfg.global).1 cfg.source).1 d.used).1 } hd
+                    simp only [targetAccepts]
+                    rw [hm]; simp
         cases m
         · exact key _ ha x hx
         · have hx' : x ∈ (bodySMTP o cfg (addAll o cfg (start o cfg).1 rs).1).2.results := by
@@ -686,7 +776,9 @@ theorem body_cr (cfg : Cfg) (d : Dlv) : (bodySMTP idOrd cfg d).1.cr = (bodyCheck
   rw [bodySMTP_eq]
   split
   · rfl
-  · split <;> exact (applyResults_frame _ _).2.2
+  · split
+    · exact (applyResults_frame _ _).2.2
+    · split <;> exact (applyResults_frame _ _).2.2
 
 /-- The runner's bookkeeping invariant holds at the end of every transaction. -/
 theorem final_inv (cfg : Cfg) (hw : cfg.WF) (m : Mode) (rs : List Rcpt) : Inv (run idOrd cfg m rs).final.cr := by
@@ -709,28 +801,43 @@ theorem C06_each_stage_once (o : Ord) (ho : o.fair) (cfg : Cfg) (hw : cfg.WF) (m
     (run o cfg m rs).final.cr.done.Nodup := by
   rw [run_ord o ho]; exact (final_inv cfg hw m rs).nodup
 
+theorem start_gens_keep (cfg : Cfg) (hno : ∀ c, cfg.v c .conn ≠ .rej ∧ cfg.v c .sender ≠ .rej) :
+    (start idOrd cfg).1.cr.gens = [] := by
+  have ok : ∀ cr g, (checkStates idOrd cfg.v cr g).2 = false := by
+    intro cr g
+    cases h : (checkStates idOrd cfg.v cr g).2
+    · rfl
+    · obtain ⟨c, _, _, hv⟩ := (cs_snd_iff cfg.v cr g).mp h
+      rcases hv with hv | hv
+      · exact absurd hv (hno c).1
+      · exact absurd hv (hno c).2
+  have g1 : (checkStates idOrd cfg.v CR.init cfg.global).1.gens = [] := by
+    rw [((cs_frame _ _ _).2.1 (ok _ _)).2]; rfl
+  have g2 : (checkStates idOrd cfg.v (checkStates idOrd cfg.v CR.init cfg.global).1 cfg.source).1.gens = [] := by
+    rw [((cs_frame _ _ _).2.1 (ok _ _)).2, g1]
+  simp only [start]
+  split
+  · exact g1
+  · split
+    · exact g1
+    · split <;> exact g2
+
 /-- A second state object for a check is only ever created after its first one was dropped by a
 refusal at the connection or sender stage: if no check rejects there, the whole transaction uses
 one state object per check, so "once per state object" is "once per check and message". -/
 theorem C06_one_state_per_check (o : Ord) (ho : o.fair) (cfg : Cfg) (hw : cfg.WF) (m : Mode) (rs : List Rcpt)
     (hno : ∀ c, cfg.v c .conn ≠ .rej ∧ cfg.v c .sender ≠ .rej) :
     (run o cfg m rs).final.cr.gens = [] ∧ ∀ k ∈ (run o cfg m rs).final.cr.done, k.g = 0 := by
-  have hs : (start idOrd cfg).2 = false := by
-    cases h : (start idOrd cfg).2
-    · rfl
-    · obtain ⟨c, _, hv⟩ := (start_refused_iff cfg).mp h
-      rcases hv with hv | hv
-      · exact absurd hv (hno c).1
-      · exact absurd hv (hno c).2
   have hg : (run o cfg m rs).final.cr.gens = [] := by
     rw [run_ord o ho, run_final]
-    simp only [hs, Bool.false_eq_true, ↓reduceIte]
-    have g1 : (rcptPhase cfg rs).1.cr.gens = [] := by
-      rw [rcptPhase, addAll_gens_keep cfg hno, start_gens cfg hs]
     split
-    · exact g1
-    · have ch := bodyChecks_chain cfg (rcptPhase cfg rs).1
-      rw [body_cr, ch.gens_keep hno, g1]
+    · exact start_gens_keep cfg hno
+    · have g1 : (rcptPhase cfg rs).1.cr.gens = [] := by
+        rw [rcptPhase, addAll_gens_keep cfg hno, start_gens_keep cfg hno]
+      split
+      · exact g1
+      · have ch := bodyChecks_chain cfg (rcptPhase cfg rs).1
+        rw [body_cr, ch.gens_keep hno, g1]
   refine ⟨hg, ?_⟩
   intro k hk
   -- every log entry's generation is at most the number of dropped state objects of its check
@@ -744,17 +851,20 @@ theorem count_one {l : List Call} (hn : l.Nodup) {k : Call} (hk : k ∈ l) : l.c
   rw [List.Nodup.count hn]; simp [hk]
 
 /-- **Every applicable check sees every stage exactly once.** When DATA gets past the checks (the
-message is handed to the targets, or only DMARC / a target refuses it), every check that applies
-to the message has a state object that was asked exactly once about the connection, exactly once
-about the sender, exactly once about the body, and exactly once about each accepted recipient it
-applies to — whatever the placement, the envelope and the completion order. -/
+message is handed to the targets, or only DMARC / a modifier / a target refuses it), every check
+that is asked about the body - global, source, or in the destination block of a recipient handled
+in that block's scope - has a state object that was asked exactly once about the connection,
+exactly once about the sender, exactly once about the body, and exactly once about each recipient
+handled in its scope (every accepted recipient it applies to, and every recipient that passed the
+checks and then failed in its block's `RewriteRcpt`) — whatever the placement, the envelope, the
+modifier failures and the completion order. -/
 theorem C06_sees_every_stage (o : Ord) (ho : o.fair) (cfg : Cfg) (hw : cfg.WF) (m : Mode) (rs : List Rcpt) :
     ∀ b, (run o cfg m rs).body = some b → b.refused ≠ some .check →
-      ∀ c, appliesBody cfg (run o cfg m rs).rcpts c →
+      ∀ c, inBodyScope cfg (run o cfg m rs).rcpts c →
         (run o cfg m rs).final.cr.done.count ⟨c, (run o cfg m rs).final.cr.gen c, .conn⟩ = 1 ∧
         (run o cfg m rs).final.cr.done.count ⟨c, (run o cfg m rs).final.cr.gen c, .sender⟩ = 1 ∧
         (run o cfg m rs).final.cr.done.count ⟨c, (run o cfg m rs).final.cr.gen c, .body⟩ = 1 ∧
-        ∀ x ∈ (run o cfg m rs).rcpts, x.2 = false → applies cfg x.1 c →
+        ∀ x ∈ (run o cfg m rs).rcpts, ReachesBlock cfg x.1 → applies cfg x.1 c →
           (run o cfg m rs).final.cr.done.count ⟨c, (run o cfg m rs).final.cr.gen c, .rcpt x.1⟩ = 1 := by
   rw [run_ord o ho]
   intro b hb hnc c hc
@@ -783,7 +893,7 @@ theorem C06_sees_every_stage (o : Ord) (ho : o.fair) (cfg : Cfg) (hw : cfg.WF) (
       have k := ch.ok rfl g hg c hcg
       have sn := I.seen c k.1
       refine ⟨count_one I.nodup sn.1, count_one I.nodup sn.2, count_one I.nodup k.2.1, ?_⟩
-      intro x hx hxa hap
+      intro x hx hre hap
       have hg' : ∃ g ∈ appGroups cfg x.1, c ∈ g := by
         simp only [appGroups, List.mem_cons, List.not_mem_nil, or_false]
         rcases hap with h | h | h
@@ -791,8 +901,61 @@ theorem C06_sees_every_stage (o : Ord) (ho : o.fair) (cfg : Cfg) (hw : cfg.WF) (
         · exact ⟨_, Or.inr (Or.inl rfl), h⟩
         · exact ⟨_, Or.inr (Or.inr rfl), h⟩
       obtain ⟨g', hg', hcg'⟩ := hg'
-      have acc := addAll_accepted cfg rs _ x hx hxa g' hg' c hcg'
+      have acc := addAll_reached cfg rs _ (start_ok cfg hs').1 x hx hre g' hg' c hcg'
       exact count_one I.nodup (ch.ext.mem acc.1 acc.2.1).2
+
+/-- An accepted recipient was handled in the scope of every check that applies to it. -/
+theorem C06_accepted_reaches_block (o : Ord) (ho : o.fair) (cfg : Cfg) (m : Mode) (rs : List Rcpt) :
+    ∀ x ∈ (run o cfg m rs).rcpts, x.2 = false → ReachesBlock cfg x.1 := by
+  rw [run_ord o ho, run_rcpts]
+  intro x hx hxa
+  by_cases hs : (start idOrd cfg).2 = true
+  · simp [hs] at hx
+  · have hs' : (start idOrd cfg).2 = false := by simpa using hs
+    simp only [hs, Bool.false_eq_true, ↓reduceIte] at hx
+    exact addAll_accepted_reaches cfg rs _ (start_ok cfg hs').1 x hx hxa
+
+/-- The same in the property's words: every check that applies to the message (global, source, or
+in the destination block of an accepted recipient) saw connection, sender, body and each accepted
+recipient it applies to exactly once. -/
+theorem C06_sees_every_stage_accepted (o : Ord) (ho : o.fair) (cfg : Cfg) (hw : cfg.WF) (m : Mode) (rs : List Rcpt) :
+    ∀ b, (run o cfg m rs).body = some b → b.refused ≠ some .check →
+      ∀ c, appliesBody cfg (run o cfg m rs).rcpts c →
+        (run o cfg m rs).final.cr.done.count ⟨c, (run o cfg m rs).final.cr.gen c, .conn⟩ = 1 ∧
+        (run o cfg m rs).final.cr.done.count ⟨c, (run o cfg m rs).final.cr.gen c, .sender⟩ = 1 ∧
+        (run o cfg m rs).final.cr.done.count ⟨c, (run o cfg m rs).final.cr.gen c, .body⟩ = 1 ∧
+        ∀ x ∈ (run o cfg m rs).rcpts, x.2 = false → applies cfg x.1 c →
+          (run o cfg m rs).final.cr.done.count ⟨c, (run o cfg m rs).final.cr.gen c, .rcpt x.1⟩ = 1 := by
+  intro b hb hnc c hc
+  have k := C06_sees_every_stage o ho cfg hw m rs b hb hnc c (C06_applies_in_scope o ho cfg m rs c hc)
+  exact ⟨k.1, k.2.1, k.2.2.1, fun x hx hxa hap =>
+    k.2.2.2 x hx (C06_accepted_reaches_block o ho cfg m rs x hx hxa) hap⟩
+
+/-- **The blocks that take part in the body stage** (the key set of `rcptModifiersState`, which
+`Body` and `BodyNonAtomic` walk to find the destination blocks whose checks are asked about the body
+and whose modifiers rewrite it): when DATA is reached they are exactly the blocks of the recipients
+handled in their scope.  In particular the block of every ACCEPTED recipient is among them, no
+matter what came after that recipient was accepted - a later recipient of the same block failing
+in the block's `RewriteRcpt`, recipients of other blocks, refusals: nothing removes a block. -/
+theorem C06_body_stage_blocks (o : Ord) (ho : o.fair) (cfg : Cfg) (m : Mode) (rs : List Rcpt)
+    (hok : (run o cfg m rs).startRefused = false) :
+    (∀ b, b ∈ (run o cfg m rs).final.used ↔
+      ∃ x ∈ (run o cfg m rs).rcpts, ReachesBlock cfg x.1 ∧ cfg.route x.1 = b) ∧
+    (∀ x ∈ (run o cfg m rs).rcpts, x.2 = false → cfg.route x.1 ∈ (run o cfg m rs).final.used) := by
+  have main : ∀ b, b ∈ (run o cfg m rs).final.used ↔
+      ∃ x ∈ (run o cfg m rs).rcpts, ReachesBlock cfg x.1 ∧ cfg.route x.1 = b := by
+    rw [run_ord o ho] at hok ⊢
+    rw [run_startRefused] at hok
+    rw [run_final, run_rcpts]
+    simp only [hok, Bool.false_eq_true, ↓reduceIte]
+    have ad := atData cfg hok rs
+    intro b
+    split
+    · exact ad.2.2.2.1 b
+    · rw [(body_frame cfg _).2]; exact ad.2.2.2.1 b
+  refine ⟨main, ?_⟩
+  intro x hx hxa
+  exact (main _).mpr ⟨x, hx, C06_accepted_reaches_block o ho cfg m rs x hx hxa, rfl⟩
 
 /-- **Only applicable checks are called**: every call of the transaction is on a check of the
 global block, of the source block, or of the destination block of a submitted recipient. -/
@@ -866,6 +1029,12 @@ theorem C06_T1_flag_only_raised :
     Generated.C06Calls.flagWriteValues = Generated.C06Calls.flagWriteSites.map (fun _ => "true") ∧
     Generated.C06Calls.flagWriteSites = Expect.C06Calls.flagWriteSites := ⟨rfl, rfl⟩
 
+/-- In the current tree the key set of `rcptModifiersState` - which `Body` / `BodyNonAtomic` walk to
+find the destination blocks whose checks are asked about the body - is only ever extended, by
+`getRcptModifiers`: nothing deletes, clears or replaces it (`Model.useBlock`, `C06_body_stage_blocks`). -/
+theorem C06_T1_body_stage_blocks_only_added :
+    Generated.C06Calls.blockMapUpdates = Expect.C06Calls.blockMapUpdates := rfl
+
 /-! ## non-vacuity: a concrete transaction exercising the hypotheses -/
 
 /-- Two checks: check 0 is referenced by the global block and by destination block 1, check 1 by
@@ -882,6 +1051,7 @@ def exCfg : Cfg where
   tgt := fun t => ⟨t = 1, t = 1⟩
   dmarc := .off
   q0 := false
+  mf := MFaults.none
 
 example : exCfg.WF := ⟨by decide, by decide, by intro b; by_cases h : b = 0 <;> simp [exCfg, h]⟩
 
@@ -906,6 +1076,41 @@ example : let ob := run idOrd { exCfg with q0 := true } .lmtp [1, 3]
 
 example : flagThrough idOrd .smtp false [(exCfg, [1, 2]), (exCfg, [1])] = true ∧
     flagThrough idOrd .smtp false [(exCfg, [1]), (exCfg, [1])] = false := by decide
+
+/-- Failing modifiers (the transaction of reviewer case C06-5): check 1 sits in destination block 0
+and rejects the body; recipient 1 (block 0) is accepted, recipient 3 (block 0 as well) passes the
+checks and fails in the block's own `RewriteRcpt`, recipient 2 (block 1) is accepted. -/
+def exMod : Cfg := { exCfg with
+  v := fun c s => match c, s with
+    | 1, .body => .rej
+    | _, _ => .none
+  mf := { MFaults.none with rcptB := fun r => r == 3 } }
+
+/-- Block 0 stays among the blocks of the body stage (`used = [0, 1]`), check 1 is asked about the
+body, its reject refuses DATA, nobody is served - over both body paths.  Recipient 3 was handled in
+the scope of check 1 (`ReachesBlock`), so check 1 saw it - once. -/
+example : let ob := run idOrd exMod .smtp [1, 3, 2]
+    ob.startRefused = false ∧ ob.rcpts = [(1, false), (3, true), (2, false)] ∧ ob.final.used = [0, 1] ∧
+    ob.body.map (fun b => b.refused) = some (some .check) ∧ delivered .smtp ob = [] ∧
+    ob.final.cr.done.count ⟨1, 0, .rcpt 3⟩ = 1 ∧ ob.final.cr.done.count ⟨1, 0, .body⟩ = 1 := by decide
+
+example : (run idOrd exMod .lmtp [1, 3, 2]).body.map (fun b => b.refused) = some (some .check) := by decide
+
+example : ReachesBlock exMod 3 ∧ exMod.mf.rcptAny 3 = true ∧ ¬ ReachesBlock { exMod with mf := { MFaults.none with rcptG := fun r => r == 3 } } 3 := by
+  unfold ReachesBlock MustRefuseRcpt; decide
+
+/-- The same with a quarantine instead of the reject: every hand-over carries the flag. -/
+example : let cfg : Cfg := { exMod with v := fun c s => match c, s with | 1, .body => .quar | _, _ => .none }
+    (run idOrd cfg .lmtp [1, 3, 2]).final.metaQ = true ∧
+    handedOver .lmtp (run idOrd cfg .lmtp [1, 3, 2]) = [(0, [1], true)] := by decide
+
+/-- Failures elsewhere: `RewriteSender` of the source modifiers refuses MAIL; `RewriteBody` of block
+1's modifiers refuses DATA after the checks passed (`Why.modifier`), nothing is handed over. -/
+example : (run idOrd { exCfg with mf := { MFaults.none with senderS := true } } .smtp [1]).startRefused = true ∧
+    (run idOrd { exCfg with mf := { MFaults.none with bodyB := fun b => b == 1 } } .lmtp [1, 2]).body.map (fun b => b.refused)
+      = some (some .modifier) ∧
+    (run idOrd { exCfg with mf := { MFaults.none with bodyB := fun b => b == 1 } } .lmtp [1]).body.map (fun b => b.refused)
+      = some none := by decide
 
 /-- The hypothesis of `C06_one_state_per_check` is satisfiable (and the conclusion not trivial:
 calls were made). -/
